@@ -1,6 +1,10 @@
 """C07 — aggregation is the exact weighted mean and never harms its inputs; clipping by global norm."""
 import itertools
+import json
 import math
+import os
+import subprocess
+import sys
 import warnings
 from fractions import Fraction
 
@@ -44,6 +48,55 @@ FACTORS_EXACT = [F(1, 2), F(1), F(2), F(1, 4), F(3, 2), F(1), F(1, 8), F(16), F(
 FACTORS_FLOAT = [0.5, 0.99, 1.01, 1.5, 2.0, 0.125, 8.0, 1.01, 1.05]
 
 
+# per-client leaf dtypes for the mixed-dtype cases (jax arrays); values of these cases are small integers, so
+# every input is exactly representable in each of them
+MIXED_KINDS = ['ji32', 'jbf16', 'jf16', 'jf32']
+DTYPE_EPS = {'bf16': 2.0 ** -8, 'f16': 2.0 ** -11}
+INF_BOUNDS = ['pyinf', 'jnpinf', 'npinf', 'big']      # 'big' = the python float 1e39, which overflows float32
+
+# float64 probe: run in ONE subprocess with JAX_ENABLE_X64=1 (the harness process itself is in float32 mode).
+# argv[1] = repo path; stdin = JSON list of sub-cases; stdout = JSON list of results.
+X64_SCRIPT = r"""
+import json, sys, warnings
+warnings.filterwarnings('ignore')
+sys.path.insert(0, sys.argv[1])
+import numpy as np
+import jax, jax.numpy as jnp
+from fedjax.core import tree_util
+from fedjax.aggregators import aggregator
+subs = json.load(sys.stdin)
+res = []
+for sc in subs:
+  r = {'out': None, 'err': None, 'deleted': False, 'changed': False, 'dtype': None, 'x64': bool(jax.config.jax_enable_x64)}
+  try:
+    trees = [{'a': jnp.array(np.array(t[0], dtype=np.float64)), 'b': jnp.array(np.float64(t[1]))} for t in sc['trees']]
+    snaps = [[np.array(l, copy=True) for l in jax.tree_util.tree_leaves(t)] for t in trees]
+    fn = sc['fn']
+    if fn == 'sum':
+      out = tree_util.tree_sum(iter(trees))
+    elif fn == 'mean':
+      out = tree_util.tree_mean((t, w) for t, w in zip(trees, sc['weights']))
+    elif fn == 'agg':
+      ag = aggregator.mean_aggregator()
+      out, _ = ag.apply([(b'c%d' % i, t, w) for i, (t, w) in enumerate(zip(trees, sc['weights']))], ag.init())
+    else:
+      out = tree_util.tree_clip_by_global_norm(trees[0], sc['M'])
+    leaves = jax.tree_util.tree_leaves(out)
+    r['dtype'] = sorted({str(l.dtype) for l in leaves})
+    r['out'] = [float(v) for v in np.asarray(out['a'], dtype=np.float64)] + [float(out['b'])]
+    for t, sn in zip(trees, snaps):
+      for l, c in zip(jax.tree_util.tree_leaves(t), sn):
+        if l.is_deleted():
+          r['deleted'] = True
+        elif not np.array_equal(np.asarray(l), c):
+          r['changed'] = True
+  except Exception as e:
+    r['err'] = type(e).__name__ + ': ' + str(e)[:160]
+  res.append(r)
+print('X64RESULT' + json.dumps(res))
+"""
+
+
 def tol(S, model):
   # purely relative (S and model carry the magnitude of the case); 1e-37 ~ smallest normal float32
   return 1e-5 * float(S) + 1e-4 * abs(float(model)) + 1e-37
@@ -70,7 +123,10 @@ class C07(core.Property):
           'float32/float64/int32 leaves; weights incl. all-zero / single positive / equal; list, generator, iter, '
           'tuple, map inputs; a permutation of the clients; every tree kind also rescaled by 2^-20..2^-40 and 2^+20, '
           'mean weights by 2^-10/2^+10; clip bounds at, just above/below (x(1 +- 2^-10), +-1%) and far from the norm at every '
-          'scale; every clause judged relative to the magnitude of the case); non-trivial = every realistic wrong variant '
+          'scale; every clause judged relative to the magnitude of the case; clients of one call with different leaf '
+          'dtypes int32/bfloat16/float16/float32; infinite and float32-overflowing clip bounds; one float64 probe per run: '
+          'a JAX_ENABLE_X64 subprocess running tree_sum/tree_mean/mean_aggregator/clip on float64 leaves with weights that '
+          'are not float32-representable, judged at 1e-12 relative); non-trivial = every realistic wrong variant '
           '(unweighted mean, divide by count, no division, first tree only; for clip: identity, scale without '
           'min) differs from the right value by > 100x the comparison tolerance in some coordinate; '
           'distinct by case digest')
@@ -134,6 +190,10 @@ class C07(core.Property):
   def _mean_case(self, rng, op=None):
     op = op or rng.choice(['mean', 'mean', 'agg', 'sum'])
     n = rng.choice([1, 1, 2, 2, 3, 4, 5, 6])
+    mixed = rng.random() < 0.22
+    if mixed:
+      n = rng.choice([2, 2, 3, 4, 5])
+      op = rng.choice(['sum', 'sum', 'mean', 'agg'])
     spec = self._rand_spec(rng)
     mode = rng.choice(['dyadic', 'dyadic', 'int', 'zero'] if rng.random() < 0.2 else ['dyadic', 'int'])
     trees = [[self._rand_vals(rng, size_of(s), k, mode) for s, k in spec] for _ in range(n)]
@@ -148,9 +208,22 @@ class C07(core.Property):
     has_int = any(k.endswith('i32') for _, k in spec)
     scale = 0 if (has_int or rng.random() < 0.6) else rng.choice(SCALES_TINY + [SCALE_BIG])
     wscale = 0 if (wkind == 'int' or op == 'sum' or rng.random() < 0.75) else rng.choice([-10, 10])
-    return {'op': op, 'spec': spec, 'trees': trees, 'weights': ws, 'wkind': wkind,
+    case = {'op': op, 'spec': spec, 'trees': trees, 'weights': ws, 'wkind': wkind,
             'form': rng.choice(FORMS), 'perm': perm, 'container': rng.choice(CONTAINERS),
             'as_numpy': [rng.random() < 0.15 for _ in range(n)], 'scale': scale, 'wscale': wscale}
+    if mixed:
+      # clients of one call with different leaf dtypes (small integer values: exact in every dtype)
+      kinds = [rng.choice(MIXED_KINDS) for _ in range(n)]
+      if rng.random() < 0.6:
+        kinds[0] = rng.choice(MIXED_KINDS[:3])           # the running sum starts in a narrower / integer dtype ...
+        kinds[rng.randrange(1, n)] = 'jf32'              # ... and a later client has the promoted dtype
+      case.update({'spec': [[s_, 'jf32'] for s_, _ in spec], 'client_kinds': kinds, 'scale': 0, 'wscale': 0,
+                   'as_numpy': [False] * n,
+                   'trees': [[[rng.randrange(-4, 5) for _ in range(size_of(s_))] for s_, _ in spec] for _ in range(n)],
+                   'weights': [rng.choice([0, 1, 2, 3] if wkind == 'int' else [0, 1, 2, 0.5, 3]) for _ in range(n)]})
+      if rng.random() < 0.15:
+        case['weights'] = [0] * n
+    return case
 
   def _clip_case(self, rng):
     spec = self._rand_spec(rng)
@@ -195,8 +268,11 @@ class C07(core.Property):
     for s, _ in spec:
       tree.append(flat[i:i + size_of(s)])
       i += size_of(s)
-    return {'op': 'clip', 'spec': spec, 'trees': [tree], 'M': M, 'mkind': mkind,
+    case = {'op': 'clip', 'spec': spec, 'trees': [tree], 'M': M, 'mkind': mkind,
             'container': rng.choice(CONTAINERS), 'as_numpy': [rng.random() < 0.15], 'scale': scale}
+    if rng.random() < 0.12:
+      case['Minf'] = rng.choice(INF_BOUNDS)     # "no clipping": every tree is below an infinite bound
+    return case
 
   def _weight_case(self, rng):
     spec = self._rand_spec(rng)
@@ -211,7 +287,34 @@ class C07(core.Property):
     return {'op': op, 'spec': spec, 'trees': [tree], 'w': w, 'wkind': wkind,
             'container': rng.choice(CONTAINERS), 'as_numpy': [rng.random() < 0.15], 'scale': scale}
 
+  def _x64_case(self, rng, nsub):
+    W = [0.1, 0.3, 1e-3, 16777217.0, 1 / 3, 0.7, 2.0, 1e-2, 123456789.0, 0.0, 5.0]
+    subs = []
+    for i in range(nsub):
+      fn = ['mean', 'agg', 'mean', 'sum', 'clip', 'mean'][i % 6]
+      k = rng.choice([1, 2, 3])
+      n = 1 if fn == 'clip' else rng.choice([1, 2, 3, 4])
+      trees = [[[rng.randrange(-50, 51) / 10 for _ in range(k)], rng.randrange(-50, 51) / 10] for _ in range(n)]
+      if i % 6 == 5:
+        n = 3
+        trees = [[list(trees[0][0]), trees[0][1]] for _ in range(3)]      # identical trees: the mean must stay on them
+      sub = {'fn': fn, 'trees': trees}
+      if fn in ('mean', 'agg'):
+        ws = [rng.choice(W) for _ in range(n)]
+        if all(w == 0 for w in ws) and rng.random() < 0.7:
+          ws[0] = 0.1
+        sub['weights'] = ws
+      if fn == 'clip':
+        nrm = math.sqrt(sum(v * v for v in trees[0][0]) + trees[0][1] ** 2)
+        sub['M'] = (nrm or 1.0) * rng.choice([0.3, 0.99, 1.01, 3.0])
+      subs.append(sub)
+    return {'op': 'x64', 'subs': subs}
+
   def gen_cases(self, rng, tier):
+    # float64 probe (one subprocess) first, so that it is never cut off by the budget
+    yield self._x64_case(rng, 12 if tier == 'quick' else 30)
+    if tier == 'thorough':
+      yield self._x64_case(rng, 30)
     if tier == 'thorough':
       # exhaustive weight vectors over {0, 1, 2, 0.5} for 1..4 clients, two tree specs, every form
       specs = [[[[3], 'jf32']], [[[], 'jf32'], [[2, 2], 'nf32']]]
@@ -241,7 +344,7 @@ class C07(core.Property):
                    'trees': [[[v * (-1) ** (i + cnt) for i, v in enumerate(base)]]], 'M': float(ex * fac),
                    'mkind': ['float', 'np32', 'jnp'][cnt % 3], 'container': CONTAINERS[cnt % 3],
                    'as_numpy': [False], 'scale': scale}
-    n = {'quick': 700, 'thorough': 6000}.get(tier, 1500)
+    n = {'quick': 520, 'thorough': 5000}.get(tier, 1500)
     for i in range(n):
       r = rng.random()
       if r < 0.62:
@@ -253,6 +356,19 @@ class C07(core.Property):
 
   def shrink(self, case):
     op = case['op']
+    if op == 'x64':
+      subs = case['subs']
+      if len(subs) > 1:
+        for sub in subs:
+          yield {'op': 'x64', 'subs': [sub]}
+      elif len(subs[0]['trees']) > 1 and subs[0]['fn'] != 'clip':
+        sub = subs[0]
+        for drop in range(len(sub['trees'])):
+          c = {**sub, 'trees': [t for i, t in enumerate(sub['trees']) if i != drop]}
+          if 'weights' in sub:
+            c['weights'] = [w for i, w in enumerate(sub['weights']) if i != drop]
+          yield {'op': 'x64', 'subs': [c]}
+      return
     n = len(case['trees'])
     if op in ('mean', 'sum', 'agg') and n > 1:
       for drop in range(n):
@@ -261,6 +377,8 @@ class C07(core.Property):
         c['trees'] = [case['trees'][i] for i in keep]
         c['weights'] = [case['weights'][i] for i in keep]
         c['as_numpy'] = [case['as_numpy'][i] for i in keep]
+        if case.get('client_kinds'):
+          c['client_kinds'] = [case['client_kinds'][i] for i in keep]
         order = [i for i in case['perm'] if i != drop]
         c['perm'] = [keep.index(i) for i in order]
         yield c
@@ -279,6 +397,12 @@ class C07(core.Property):
       yield {**case, 'as_numpy': [False] * n}
     if case.get('wscale', 0):
       yield {**case, 'wscale': 0}
+    if case.get('client_kinds'):
+      for i, k in enumerate(case['client_kinds']):
+        if k != 'jf32':
+          yield {**case, 'client_kinds': case['client_kinds'][:i] + ['jf32'] + case['client_kinds'][i + 1:]}
+    if case.get('Minf') and case['Minf'] != 'pyinf':
+      yield {**case, 'Minf': 'pyinf'}
     sc = case.get('scale', 0)
     if sc:
       for cand in (0, sc // 2, sc + (1 if sc < 0 else -1)):
@@ -299,6 +423,9 @@ class C07(core.Property):
 
   def _leaf(self, vals, shape, kind, as_numpy):
     jnp = self.jnp
+    if kind[1:] in ('bf16', 'f16'):
+      return jnp.array(np.array(vals, dtype=np.float32).reshape(shape),
+                       dtype=jnp.bfloat16 if kind[1:] == 'bf16' else jnp.float16)
     dt = {'f32': np.float32, 'f64': np.float64, 'i32': np.int32}[kind[1:]]
     arr = np.array(vals, dtype=dt).reshape(shape)
     if kind[0] == 'n' or as_numpy:
@@ -320,10 +447,11 @@ class C07(core.Property):
 
   def _build(self, case):
     trees = []
-    int_kinds = [k.endswith('i32') for _, k in case['spec']]
+    ck = case.get('client_kinds') or [None] * len(case['trees'])
     for ci, t in enumerate(self._scaled(case)):
-      t = [[int(v) if isint else float(v) for v in l] for l, isint in zip(t, int_kinds)]
-      leaves = [self._leaf(v, s, k, case['as_numpy'][ci]) for v, (s, k) in zip(t, case['spec'])]
+      kinds = [ck[ci] or k for _, k in case['spec']]
+      t = [[int(v) if k.endswith('i32') else float(v) for v in l] for l, k in zip(t, kinds)]
+      leaves = [self._leaf(v, s, k, case['as_numpy'][ci]) for v, (s, _), k in zip(t, case['spec'], kinds)]
       trees.append(self._tree(leaves, case['container']))
     return trees
 
@@ -387,9 +515,13 @@ class C07(core.Property):
 
   def evaluate(self, case, ctx):
     op = case['op']
+    if op == 'x64':
+      return self._eval_x64(case, ctx)
     if op in ('mean', 'agg', 'sum'):
       return self._eval_mean(case, ctx)
     if op == 'clip':
+      if case.get('Minf'):
+        return self._eval_clip_inf(case, ctx)
       return self._eval_clip(case, ctx)
     return self._eval_weight(case, ctx)
 
@@ -432,6 +564,11 @@ class C07(core.Property):
     m = len(flat_in[0])
     W = sum(fw)
     problems, corr, key = [], [], None
+    # clients in bfloat16 / float16: "up to rounding" is the rounding of that dtype (inputs are exact small integers)
+    eps_dt = max([DTYPE_EPS.get(k[1:], 0.0) for k in (case.get('client_kinds') or []) if k] + [0.0])
+
+    def tolc(S_, model_):
+      return tol(S_, model_) + 4 * eps_dt * float(S_)
 
     def fail(k, msg):
       nonlocal key
@@ -463,7 +600,7 @@ class C07(core.Property):
         fail('nan', f'non-finite output {got} ({which})')
         continue
       for k in range(m):
-        if abs(got[k] - float(want[k])) > tol(S[k], want[k]):
+        if abs(got[k] - float(want[k])) > tolc(S[k], want[k]):
           what = 'sum' if op == 'sum' else ('0 (total weight 0)' if W == 0 else 'sum(w*p)/sum(w)')
           fail('value' if which == 'given order' else 'order',
                f'coordinate {k}: got {got[k]}, {what} = {float(want[k])} ({which})')
@@ -472,13 +609,13 @@ class C07(core.Property):
         used = [t for w, t in zip(fw, flat_in)]
         for k in range(m):
           lo, hi = min(t[k] for t in used), max(t[k] for t in used)
-          if not (float(lo) - tol(S[k], lo) <= got[k] <= float(hi) + tol(S[k], hi)):
+          if not (float(lo) - tolc(S[k], lo) <= got[k] <= float(hi) + tolc(S[k], hi)):
             fail('hull', f'coordinate {k}: {got[k]} outside [{float(lo)}, {float(hi)}] ({which})')
             break
     if len(outs) == 2 and not problems:
       a, b = self._flat(outs[0]), self._flat(outs[1])
       for k in range(m):
-        if abs(a[k] - b[k]) > 2 * tol(S[k], want[k]):
+        if abs(a[k] - b[k]) > 2 * tolc(S[k], want[k]):
           fail('order', f'coordinate {k}: {a[k]} in the given order, {b[k]} in the permuted order')
           break
     for k, msg in self._harm(snap, outs):
@@ -505,7 +642,7 @@ class C07(core.Property):
           corr.append(f'model has {len(model)} coordinates, implementation {len(got)}')
         else:
           for k in range(m):
-            if not (abs(got[k] - float(model[k])) <= tol(S[k], model[k])):
+            if not (abs(got[k] - float(model[k])) <= tolc(S[k], model[k])):
               corr.append(f'coordinate {k}: implementation {got[k]} vs model {model[k]}')
               break
 
@@ -519,9 +656,10 @@ class C07(core.Property):
         by_count = [sum(w * t[k] for w, t in zip(fw, flat_in)) / n for k in range(m)]
         no_div = [sum(w * t[k] for w, t in zip(fw, flat_in)) for k in range(m)]
         wrongs = [unweighted, by_count, no_div, flat_in[0]]
-      nontrivial = all(any(abs(float(x - y)) > 100 * tol(S[k], y) for k, (x, y) in enumerate(zip(wr, want)))
+      nontrivial = all(any(abs(float(x - y)) > 100 * tolc(S[k], y) for k, (x, y) in enumerate(zip(wr, want)))
                        for wr in wrongs)
-    tags = (f'op={op}', f'n={n}', f'form={case["form"]}', f'wkind={case["wkind"]}',
+    tags = ('mixed-dtype:' + ','.join(sorted(set(case['client_kinds']))) if case.get('client_kinds') else 'same-dtype',
+            f'op={op}', f'n={n}', f'form={case["form"]}', f'wkind={case["wkind"]}',
             f'scale=2^{case.get("scale", 0)}', f'wscale=2^{case.get("wscale", 0)}',
             'W=0' if (op != 'sum' and W == 0) else 'W>0', f'leaves={len(case["spec"])}',
             'numpy-input' if any(case['as_numpy']) or any(k[0] == 'n' for _, k in case['spec']) else 'jax-input')
@@ -529,6 +667,136 @@ class C07(core.Property):
                    key=key, nontrivial=nontrivial, tags=tags,
                    detail={'impl': [self._flat(o) for o in outs], 'model': ans,
                            'expected': [float(x) for x in want]})
+
+  def _eval_clip_inf(self, case, ctx):
+    """an infinite (or float32-overflowing) bound = "no clipping": the tree is below the bound, identity expected.
+    Oracle only; the Lean clip model is stated for finite positive bounds."""
+    trees = self._build(case)
+    tree = trees[0]
+    kind = case['Minf']
+    M = {'pyinf': float('inf'), 'jnpinf': self.jnp.inf, 'npinf': np.float32(np.inf), 'big': 1e39}[kind]
+    snap = self._snapshot(trees)
+    xf = [float(np.float32(float(v))) for l in self._scaled(case)[0] for v in l]
+    problems, key = [], None
+
+    def fail(k, msg):
+      nonlocal key
+      key = key or f'C07/clip/{k}'
+      problems.append(msg)
+
+    outs, got = [], None
+    try:
+      out = self.tu.tree_clip_by_global_norm(tree, M)
+      outs.append(out)
+      bad = self._struct_ok(out, tree)
+      if bad:
+        fail('structure', bad)
+      else:
+        got = self._flat(out)
+    except Exception as e:
+      fail('raised', f'tree_clip_by_global_norm(tree, {kind}) raised {type(e).__name__}: {str(e)[:120]}')
+    if got is not None:
+      if any(not math.isfinite(g) for g in got):
+        fail('nan', f'bound {M!r} ({kind}): non-finite output {got} for the finite input {xf} (below the bound: identity expected)')
+      elif got != xf:
+        fail('identity', f'bound {M!r} ({kind}): every norm is below it, but result {got} != input {xf}')
+    for k, msg in self._harm(snap, outs):
+      fail(k, msg)
+    ctx.count('monitor_inputs_unharmed', len(snap[0]))
+    tags = ('op=clip', f'infinite-bound={kind}', f'scale=2^{case.get("scale", 0)}',
+            'zero-tree' if all(v == 0 for v in xf) else 'below-bound')
+    return Outcome(oracle_fail='; '.join(problems[:4]) or None, key=key, nontrivial=any(v != 0 for v in xf), tags=tags,
+                   detail={'impl': got, 'bound': kind, 'input': xf})
+
+  def _eval_x64(self, case, ctx):
+    """float64 probe: the real functions under JAX_ENABLE_X64=1 in one subprocess, judged at 1e-12 relative."""
+    subs = case['subs']
+    env = dict(os.environ, JAX_ENABLE_X64='1', JAX_PLATFORMS='cpu')
+    p = subprocess.run([sys.executable, '-c', X64_SCRIPT, core.REPO], input=json.dumps(subs), capture_output=True,
+                       text=True, env=env, timeout=600)
+    mark = [l for l in p.stdout.split('\n') if l.startswith('X64RESULT')]
+    if p.returncode != 0 or not mark:
+      raise core.InfraError(f'x64 probe subprocess failed: {p.stderr[-400:]}')
+    res = json.loads(mark[-1][len('X64RESULT'):])
+    if len(res) != len(subs) or not all(r['x64'] for r in res):
+      raise core.InfraError('x64 probe: jax_enable_x64 is not active in the subprocess')
+    ctx.count('x64_subcases', len(subs))
+    problems, corr, key = [], [], None
+
+    def fail(k, msg):
+      nonlocal key
+      key = key or f'C07/x64/{k}'
+      problems.append(msg)
+
+    def t64(S_, ref):
+      return F(1, 10 ** 12) * (abs(F(S_)) + abs(F(ref)))
+
+    lines, meta = [], []
+    for si, (sub, r) in enumerate(zip(subs, res)):
+      fn = sub['fn']
+      flat = [[F(v) for v in t[0]] + [F(t[1])] for t in sub['trees']]
+      m = len(flat[0])
+      tagp = f'sub-case {si} ({fn}, float64 leaves' + (f', weights {sub["weights"]}' if 'weights' in sub else '') + ')'
+      if r['err']:
+        fail('raised', f'{tagp} raised {r["err"]}')
+        continue
+      if r['deleted'] or r['changed']:
+        fail('input-deleted' if r['deleted'] else 'input-modified', f'{tagp}: an input leaf was '
+             + ('deleted' if r['deleted'] else 'modified'))
+      got = r['out']
+      if r['dtype'] != ['float64']:
+        fail('dtype', f'{tagp}: output dtype {r["dtype"]} for float64 inputs')
+      if any(not math.isfinite(g) for g in got):
+        fail('nan', f'{tagp}: non-finite output {got}')
+        continue
+      gotF = [F(g) for g in got]
+      if fn == 'sum':
+        want = [sum(t[k] for t in flat) for k in range(m)]
+        S = [sum(abs(t[k]) for t in flat) for k in range(m)]
+        lines.append(line('c07.sum', flat))
+      elif fn in ('mean', 'agg'):
+        fw = [F(w) for w in sub['weights']]
+        W = sum(fw)
+        want = [(sum(w * t[k] for w, t in zip(fw, flat)) / W) if W > 0 else F(0) for k in range(m)]
+        S = [(sum(abs(w * t[k]) for w, t in zip(fw, flat)) / W) if W > 0 else F(0) for k in range(m)]
+        lines.append(line('c07.mean' if fn == 'mean' else 'c07.agg', flat, fw))
+        if W > 0:
+          for k in range(m):
+            lo, hi = min(t[k] for t in flat), max(t[k] for t in flat)
+            if not (lo - t64(S[k], lo) <= gotF[k] <= hi + t64(S[k], hi)):
+              fail('hull', f'{tagp}: coordinate {k} = {got[k]!r} outside [{float(lo)!r}, {float(hi)!r}] '
+                           f'by more than float64 rounding')
+              break
+      else:
+        x = flat[0]
+        fM = F(sub['M'])
+        nrm2 = sum(v * v for v in x)
+        nrm = F(math.sqrt(nrm2))
+        sc = min(F(1), fM / nrm) if nrm > 0 else F(1)
+        want = [sc * v for v in x]
+        S = [abs(v) for v in x]
+        lines.append(line('c07.clip', nrm, fM, x))
+      meta.append((si, fn, gotF, S, tagp))
+      for k in range(m):
+        if abs(gotF[k] - want[k]) > t64(S[k], want[k]):
+          name = {'sum': 'sum', 'clip': 'min(1, M/norm) * x'}.get(fn, 'sum(w*p)/sum(w)')
+          fail('value', f'{tagp}: coordinate {k} = {got[k]!r}, exact {name} = {float(want[k])!r} '
+                        f'(relative error {abs(float((gotF[k] - want[k]) / (want[k] or 1))):.3g} > 1e-12)')
+          break
+    if lines:
+      ans = ctx.drv.ask(lines)
+      for (si, fn, gotF, S, tagp), a in zip(meta, ans):
+        model = a[0] if fn == 'clip' else a
+        if model is None or isinstance(model, str) or len(model) != len(gotF):
+          corr.append(f'{tagp}: model answered {model}')
+          continue
+        for k in range(len(gotF)):
+          if abs(gotF[k] - F(model[k])) > t64(S[k], model[k]):
+            corr.append(f'{tagp}: coordinate {k}: implementation {float(gotF[k])!r} vs model {float(F(model[k]))!r}')
+            break
+    tags = ('op=x64', f'subcases={len(subs)}')
+    return Outcome(oracle_fail='; '.join(problems[:4]) or None, corr_fail='; '.join(corr[:3]) or None, key=key,
+                   nontrivial=True, tags=tags, detail={'impl': res})
 
   def _eval_clip(self, case, ctx):
     trees = self._build(case)
